@@ -109,7 +109,13 @@ structure Flight where
   st : St
   rd : Reader
   panic : Bool := false
+  closed : Bool := false     -- the handler closed the request body ("body is closed")
   deriving Repr
+
+/-- `envelopingReader.Close` / `transformingReader.Close`: later reads fail, the client's body is
+    closed; buffers go back to the pool (not modelled: the model has no pool, see `Model/Pool`). -/
+def Flight.close (f : Flight) : Flight :=
+  { f with closed := true }
 
 /-- `hardLimitReader.Read`. `report` = the reader has an `rw` to report to. -/
 def hardLimitRead (w : World) (st : St) (limit read n : Nat) (report : Bool) : Bytes × Option Err × Nat × St × Bool :=
@@ -404,6 +410,7 @@ def erRead (w : World) (st : St) (r : ER) (n : Nat) : Bytes × Option Err × St 
 
 /-- One `Read(n)` on the request body the handler sees. -/
 def Flight.read (w : World) (pl : HandlePlan) (f : Flight) (n : Nat) : Bytes × Option Err × Flight :=
+  if f.closed then ([], some .other, f) else
   match f.rd with
   | .raw => let (b, e, src) := f.st.src.read n; (b, e, { f with st := { f.st with src := src } })
   | .enveloping r =>
